@@ -13,13 +13,13 @@ def run(ctx):
     #    batched deletion, ResetFlood, reopen (lastMappingIDToInsert is lost) transcribed; the
     #    flood bound is stated on the ghost allowance `credit`
     r, items = M.mc(ctx, "MetaDB_map.cfg", "map", {"MaxOps": "= 3"}, INV, PROP, export=True)
-    items = M.sample(ctx, items, 2500 if th else 300, 1)
+    items = M.sample(ctx, items, 1800 if th else 300, 1)
     r, it = M.mc(ctx, "MetaDB_map2.cfg", "map2", {"MaxOps": "= 4"}, INV, PROP, export=True)
-    items += M.sample(ctx, it, 2500 if th else 300, 2)
+    items += M.sample(ctx, it, 1800 if th else 300, 2)
     # deletion of the NEWEST ids after the budgets are spent, then the metric asks again (MAX(id) of
     # the table is not monotone; the allowance and the never-reissued ids must not depend on it)
     r, it = M.mc(ctx, "MetaDB_map3.cfg", "map3", {"MaxOps": "= 6" if th else "= 5"}, INV, PROP, export=True)
-    items += M.sample(ctx, it, 2500 if th else 400, 3, first=M.newest_deleted_then_asked)
+    items += M.sample(ctx, it, 1800 if th else 400, 3, first=M.newest_deleted_then_asked)
     if th:
         M.expect_model_violation(ctx, "MetaDB_map3.cfg", "deviation last-id-from-max",
                                  {"Bugs": '= {"last-id-from-max"}', "MaxOps": "= 5"}, "FloodBound", "", "FloodBound")
@@ -34,7 +34,7 @@ def run(ctx):
     rnd = random.Random(ctx.seed)
     for k in range(4 if th else 1):
         budget = M.random_budget(rnd) if k else (2, 10, 2, 1, 1000005)
-        r, it = M.scripts(ctx, "scripts %d" % k, {"map"}, 300 if th else 70, 60, budget, INV, PROP, salt=20 + k)
+        r, it = M.scripts(ctx, "scripts %d" % k, {"map"}, 250 if th else 70, 60, budget, INV, PROP, salt=20 + k)
         items += it
     if th:
         # the default constants of the metadata server (1000 / 3600 s / 10), global budget spent
